@@ -291,6 +291,23 @@ fn ref_head(major: u8, n: u64, out: &mut [u8; 9]) -> usize {
     }
 }
 
+/// An iterator adaptor whose size hint has no upper bound: `(0, None)` or, with `lower`, `(remaining, None)`.
+#[derive(Clone)]
+struct Hint<I> {
+    it: I,
+    lower: bool,
+}
+
+impl<I: Iterator> Iterator for Hint<I> {
+    type Item = I::Item;
+    fn next(&mut self) -> Option<I::Item> {
+        self.it.next()
+    }
+    fn size_hint(&self) -> (usize, Option<usize>) {
+        (if self.lower { self.it.size_hint().0 } else { 0 }, None)
+    }
+}
+
 fn builtin_types(r: &Report) {
     let sub = "builtin-encode-impls";
     r.space(sub, true, "every small-domain value of every built-in Encode instantiation of the type table, plus ArrayIter/MapIter with exact and inexact size hints", 1);
@@ -375,6 +392,23 @@ fn builtin_types(r: &Report) {
                 o => r.fail(sub, None, json!({"type": "MapIter(inexact)", "len": len}), format!("wrote {} = {:?}", hex(&out[..out.len().min(32)]), o.map(|x| x.0.diag()))),
             }
             n += 4;
+            // no upper bound at all, and a lower bound without an upper one: the length is unknown, so the
+            // container must be indefinite and closed by a break
+            for lower in [false, true] {
+                let kind = if lower { "lower bound only" } else { "unbounded" };
+                let out = minicbor::to_vec(ArrayIter::new(Hint { it: data.iter(), lower })).unwrap();
+                let want = Item::Array(data.iter().map(|x| Item::uint(*x as u64)).collect(), Len::Indef);
+                if out != want.to_bytes() {
+                    r.fail(sub, None, json!({"type": format!("ArrayIter({})", kind), "len": len}), format!("wrote {}, expected {}", hex(&out[..out.len().min(32)]), hex(&want.to_bytes()[..want.to_bytes().len().min(32)])));
+                }
+                let out = minicbor::to_vec(MapIter::new(Hint { it: data.iter().map(|x| (*x, false)), lower })).unwrap();
+                let want = Item::Map(data.iter().map(|x| (Item::uint(*x as u64), FALSE)).collect(), Len::Indef);
+                if out != want.to_bytes() {
+                    r.fail(sub, None, json!({"type": format!("MapIter({})", kind), "len": len}), format!("wrote {}, expected {}", hex(&out[..out.len().min(32)]), hex(&want.to_bytes()[..want.to_bytes().len().min(32)])));
+                }
+                n += 2;
+            }
+            n += 4;
         }
         r.add(sub, n, n);
         r.outcome(sub, "ArrayIter/MapIter", n);
@@ -393,6 +427,8 @@ fn builtin_types(r: &Report) {
                     crate::c11::RefTok::Int(v) => Some(Item::int(v).to_bytes()),
                     _ => None,
                 },
+                // NaN: any half NaN of the same sign is a correct head (payload bits are not pinned by the property)
+                Token::F16(x) if x.is_nan() => None,
                 Token::F16(x) => Some(Item::f16(refmodel::float::f32_to_f16(x.to_bits())).to_bytes()),
                 Token::F32(x) => Some(Item::f32(x.to_bits()).to_bytes()),
                 Token::F64(x) => Some(Item::f64(x.to_bits()).to_bytes()),
@@ -415,7 +451,17 @@ fn builtin_types(r: &Report) {
             let out = mcx::par::guard(|| minicbor::to_vec(&t));
             match (out, want) {
                 (Ok(Ok(o)), Some(w)) if o == w => ok += 1,
-                (Ok(Ok(_)), None) => ok += 1,
+                (Ok(Ok(o)), None) => {
+                    let nan_ok = match &t {
+                        Token::F16(x) if x.is_nan() => o.len() == 3 && o[0] == 0xf9 && refmodel::float::f16_is_nan(u16::from_be_bytes([o[1], o[2]])) && (o[1] & 0x80 != 0) == x.is_sign_negative(),
+                        _ => true,
+                    };
+                    if nan_ok {
+                        ok += 1;
+                    } else {
+                        r.fail(sub, None, json!({"type": "Token", "value": format!("{:?}", t)}), format!("wrote {}, expected a half-precision NaN of the same sign", hex(&o)));
+                    }
+                }
                 (o, w) => r.fail(sub, None, json!({"type": "Token", "value": format!("{:?}", t).chars().take(80).collect::<String>()}), format!("wrote {:?}, the head denoting this token is {:?}", o.map(|x| x.map(|b| hex(&b[..b.len().min(32)])).map_err(|e| e.to_string())), w.map(|b| hex(&b[..b.len().min(32)])))),
             }
         }
